@@ -43,6 +43,20 @@ Qed.
 Lemma forallb_Forall_plain : forall es, forallb plain es = true -> Forall (fun e => plain e = true) es.
 Proof. intros es H. apply Forall_forall. intros e He. rewrite forallb_forall in H. auto. Qed.
 
+Lemma insert_field_Forall : forall {A} (P : string * A -> Prop) x l,
+  P x -> Forall P l -> Forall P (insert_field x l).
+Proof.
+  induction l as [|y l IH]; simpl; intros Hx Hl; [repeat constructor; assumption|].
+  inversion Hl; subst. destruct (str_leb (fst x) (fst y)); constructor; auto.
+Qed.
+
+Lemma sort_fields_Forall : forall {A} (P : string * A -> Prop) l,
+  Forall P l -> Forall P (sort_fields l).
+Proof.
+  induction l as [|x l IH]; simpl; intros Hl; [constructor|].
+  inversion Hl; subst. apply insert_field_Forall; auto.
+Qed.
+
 (* an evaluator for thunks that is good on pure thunks *)
 Definition pure_ev (ev : thunk -> outcome whnf) : Prop :=
   forall t, pure_thunk t -> pure_out (ev t).
@@ -75,7 +89,7 @@ Proof.
     repeat match goal with
     | H : Forall pure_thunk (_ :: _) |- _ => inversion H; clear H; subst
     end;
-    unfold num2, get_num, get_str, get_arr, bind;
+    unfold num2, get_num, get_str, get_arr, get_rec, bind;
     repeat ev_pure ev Hev; split_vals; try (constructor; fail).
   all: try match goal with |- context [Qeq_bool ?y ?z] => destruct (Qeq_bool y z); simpl; auto; constructor end.
   - inversion Hp0; subst.
@@ -88,6 +102,13 @@ Proof.
     repeat constructor; simpl; auto.
     eapply Forall_forall; eassumption.
   - destruct v; simpl; auto; destruct v0; simpl; auto; constructor.
+  - inversion Hp; subst. constructor. apply Forall_forall. intros t1 Ht. apply in_map_iff in Ht.
+    destruct Ht as [ft [<- Hin]]. constructor; [reflexivity|constructor].
+  - inversion Hp; subst. constructor. apply Forall_forall. intros t1 Ht. apply in_map_iff in Ht.
+    destruct Ht as [ft [<- Hin]].
+    pose proof (sort_fields_Forall _ _ H0) as Hs. rewrite Forall_forall in Hs. apply Hs. assumption.
+  - inversion Hp0; subst. destruct (assoc s fs) as [t1|] eqn:Ha; simpl; auto.
+    apply Hev. eapply (assoc_Forall pure_thunk); eassumption.
 Qed.
 
 Lemma wrap_fields_pure : forall r fs fs',
@@ -120,6 +141,11 @@ Proof.
     destruct (forallb _ fs); simpl; auto.
     destruct (wrap_fields MUntyped r fs) as [fs'|] eqn:Hw; simpl; auto.
     constructor. eapply wrap_fields_pure; eauto.
+  - (* TDict *)
+    inversion Hv; subst. constructor. apply Forall_forall. intros ft Ht.
+    apply in_map_iff in Ht. destruct Ht as [ft0 [<- Hin]]. simpl. unfold wrap.
+    constructor; [reflexivity|]. constructor; [|constructor]. simpl.
+    rewrite Forall_forall in H0. apply (H0 ft0 Hin).
   - (* TEnum *)
     destruct (existsb _ tags); simpl; auto.
 Qed.
